@@ -86,7 +86,7 @@ def execute(spec):
         sk["seed"] = seed
         sk["choice_policy"] = pol
         sk["cover"] = cover if pol == "cover" else None
-        out = genrun.run_molecule(text, sk, props=("C08",), embed="stub", cap_mass=spec.get("cap_mass"), wall=90, ast=ast,
+        out = genrun.run_molecule(text, sk, props=("C08",), embed="stub", cap_mass=spec.get("cap_mass"), wall=200, ast=ast,
                                   entry=entry if mirror_obj is None else "molecule", reuse_obj=mirror_obj,
                                   pre_generate_seed=(spec["seeds"][0] % 3 or None) if entry == "mirror" else None)
         if out.harness_error:
